@@ -120,7 +120,13 @@ def rule(*patterns: Union[str, Predicate]) -> Callable[[Any], ProductionRule]:
 
     def fwrapper(f: ProductionRule) -> ProductionRule:
         def wrapper(ts: datetime, *args: Artifact) -> Optional[Artifact]:
-            res = f(ts, *args)
+            try:
+                res = f(ts, *args)
+            except (ValueError, OverflowError):
+                # the production cannot compute a value from these arguments,
+                # e.g. calendar arithmetic leaving the range of datetime
+                # ("today for 9999999 days") or digits int() cannot read
+                return None
             if res is not None and not _denotes_something(res):
                 # the production matched but what it built does not exist
                 return None
